@@ -694,7 +694,8 @@ impl Property for C18 {
          (typed writers, which are used through a shared reference) sinks that panic with the unwind caught by the caller; for the \
          corpus type Flat the same run also creates a typed writer for a second Rust type whose schema has the same full name. \
          Every Ok call must have produced exactly C3 01 | LE64(CRC-64-AVRO(canonical form)) | reference encoding in its own sink and \
-         round-trip through every reader. Per history the header damage set is exhaustive: 80 single-bit flips, truncations 0..9, a \
+         round-trip through every reader, alone and as one stream of all the history's messages read back to back from one \
+         source. Per history the header damage set is exhaustive: 80 single-bit flips, truncations 0..9, a \
          foreign schema's header; every reader must reject without requesting a byte past the header. distinct_nontrivial counts \
          distinct (writer kind, previous outcome, next length class, message kind) tuples plus (damage kind, reader) pairs."
             .into()
